@@ -291,11 +291,20 @@ func genEvCase(rng *simrt.Rand, tier string, o evGenOpts) *Case {
 	}
 	c.Clients = [][]Op{ops}
 	perf := &PerfSpec{ResultChan: 2 + rng.Intn(4), Workers: 1 + rng.Intn(2), PoolSize: 1 + rng.Intn(3)}
+	shortBlock := false
 	if rng.Bool(0.4) {
 		perf.Strategy = "block"
 		perf.BlockTimeout = int64(time.Hour)
 		perf.DataChan = 1 + rng.Intn(4)
 		perf.WindowOut = len(ops) + 64
+		if rng.Bool(0.25) {
+			// a block timeout of seconds with a tiny output buffer behind a slow sink: no hand-off
+			// ever waits that long (the sink's delay is far shorter and the clock is not forced
+			// forward in these runs), so nothing may be dropped
+			shortBlock = true
+			perf.BlockTimeout = int64(2 * time.Second)
+			perf.WindowOut = 1
+		}
 	} else {
 		perf.Strategy = "drop"
 		perf.DataChan = len(ops) + 8
@@ -305,6 +314,10 @@ func genEvCase(rng *simrt.Rand, tier string, o evGenOpts) *Case {
 	if rng.Bool(0.3) {
 		sink.Fault, sink.Every = "slow", 1+rng.Intn(3)
 		sink.D = int64([]time.Duration{100 * time.Microsecond, 5 * time.Millisecond, 300 * time.Millisecond}[rng.Intn(3)])
+	}
+	if shortBlock && !burst {
+		sink.Fault, sink.Every, sink.D = "slow", 1+rng.Intn(2), int64([]time.Duration{50 * time.Millisecond, 300 * time.Millisecond}[rng.Intn(2)])
+		c.X["short_block"] = true
 	}
 	if burst {
 		perf.Strategy, perf.BlockTimeout, perf.DataChan, perf.WindowOut = "block", int64(time.Hour), 1+rng.Intn(4), 1
@@ -318,6 +331,9 @@ func genEvCase(rng *simrt.Rand, tier string, o evGenOpts) *Case {
 		adv = append(adv, time.Duration(sp.Idle)+time.Millisecond)
 	}
 	c.Policy = genPolicy(rng, adv, false)
+	if c.X["short_block"] != nil {
+		c.Policy.AdvProb = 0 // time only passes when everything waits: a hand-off waits for the sink, never for the timeout
+	}
 	c.Settle = int64(3 * time.Second)
 	c.Horizon = int64(6 * time.Hour)
 	c.MaxSteps = 400000
@@ -534,8 +550,17 @@ func evRun(e *Env) (map[string]int64, bool) {
 		prev = len(in.Deliveries)
 	}
 	if st["input_dropped_count"] > 0 || windowDropped(st) > 0 {
+		if e.C.xBool("short_block") {
+			e.Probe("short_block_timeout")
+			e.Violate(e.C.Prop+"/block-dropped-before-timeout", in.Spec.Perf.Strategy, "block strategy with a %v timeout dropped (input %d, window results %d) although no hand-off can have waited that long: the slowest consumer step takes %v and the clock only moved while everything was waiting",
+				time.Duration(in.Spec.Perf.BlockTimeout), st["input_dropped_count"], windowDropped(st), time.Duration(in.Spec.Sinks[0].D))
+			return nil, false
+		}
 		e.R.Discard = fmt.Sprintf("overflow drop (input_dropped=%d window dropped=%d): not judged", st["input_dropped_count"], windowDropped(st))
 		return nil, false
+	}
+	if e.C.xBool("short_block") {
+		e.Probe("short_block_timeout")
 	}
 	return st, true
 }
